@@ -1,4 +1,5 @@
 import GeosModel.Proofs.Precision.RoundLemmas
+import GeosModel.Proofs.Precision.SymRound
 import GeosModel.Proofs.Precision.RoundF64
 import GeosModel.Proofs.Precision.RoundNE
 import GeosModel.Proofs.Precision.Glue
@@ -38,6 +39,21 @@ example : javaRound (5 / 2 : ℚ) = 3 := by
   have h := javaRound_tie 2; norm_num at h; exact h
 example : javaRound (-(1 / 2) : ℚ) = 0 := by
   have h := javaRound_tie (-1); norm_num at h; exact h
+
+/-- "round half away from zero" (the wording of the property's mechanism note) is `sym_round`, the OTHER rounding function
+of `src/util/math.cpp`, which `util::round` does not call (bridge `gen_round_eq`): the two agree on every argument except
+the negative ties `k + ½ < 0`, where `sym_round` gives `k` and `java_math_round` gives `k + 1`. -/
+theorem symRound_differs_only_at_negative_ties (x : ℚ) :
+    symRound x = javaRound x ∨ (x < 0 ∧ (∃ k : ℤ, x = (k : ℚ) + 1 / 2) ∧ symRound x = javaRound x - 1) :=
+  symRound_vs_javaRound x
+
+/-- `sym_round` sends ties away from zero -/
+theorem symRound_ties_away (k : ℤ) : symRound ((k : ℚ) + 1 / 2) = if 0 ≤ k then k + 1 else k := symRound_tie k
+
+example : symRound (-(5 / 2) : ℚ) = -3 ∧ javaRound (-(5 / 2) : ℚ) = -2 := by
+  constructor
+  · have h := symRound_tie (-3); norm_num at h; exact h
+  · have h := javaRound_tie (-3); norm_num at h; exact h
 
 /-! ## 2. `makePrecise` over exact rationals -/
 
